@@ -234,7 +234,15 @@ class CircuitWorld(World):
         if kind == "str":
             return ["Z", [str(q)], None, "", False], "rejected_gate.noninteger"
         if kind == "dup":
-            return [rng.choice(["CNOT", "CZ", "CRX"]), [q], [q], 0.3, False], "rejected_gate.duplicate"
+            r = rng.random()
+            if r < 0.4:
+                return [rng.choice(["CNOT", "CZ", "CRX"]), [q], [q], 0.3, False], "rejected_gate.duplicate"
+            if r < 0.7:      # the same qubit twice among the controls
+                c = q + 1
+                return [rng.choice(["CX", "CNOT", "CRZ", "CSWAP"][:3]), [q], [c, c] if rng.random() < 0.6 else [c, q + 2, c], 0.3, False], "rejected_gate.duplicate"
+            if r < 0.85:     # the same qubit twice among the targets
+                return [rng.choice(["SWAP", "XX"]), [q, q], None, 0.3, False], "rejected_gate.duplicate"
+            return ["CSWAP", [q, q + 1], [q + 2, q + 2], "", False], "rejected_gate.duplicate"
         if kind == "targets":
             if rng.random() < .5:
                 return ["SWAP", [q], None, "", False], "rejected_gate.wrong_targets"
